@@ -24,7 +24,7 @@ PROP = Property(
          "MithrilCertificateVerifier::verify_signed_message_matches_hashed_protocol_message", "MithrilCertificateVerifier::verify_protocol_parameters_chaining",
          "MithrilCertificateVerifier::verify_concatenation_aggregate_verification_key_chaining", "MithrilCertificateVerifier::verify_aggregate_verification_key_chaining",
          "MithrilCertificateVerifier::verify_standard_certificate_integrity", "MithrilCertificateVerifier::verify_genesis_certificate",
-         "MithrilCertificateVerifier::verify_standard_certificate", "MithrilCertificateVerifier::verify_certificate"])],
+         "MithrilCertificateVerifier::verify_standard_certificate", "MithrilCertificateVerifier::verify_certificate", "CertificateVerifier::verify_certificate_chain (default method)"])],
     replays=[dict(crate="mithril-common", file=CV, module="replays/c03_verifier.rs")],
     assumptions=[
         "SHA-256 / hex hashing of certificates, protocol messages and parameters: uninterpreted functions of the value (collision resistance assumed, not proved)",
@@ -35,7 +35,7 @@ PROP = Property(
         "verify_epoch_matches_protocol_message (let-chain, not accepted by Verus) is an assumed callee contract: Ok ==> message[CurrentEpoch] == epoch.to_string(); "
         "verify_multi_signature and fetch_previous_certificate likewise (logging / async retriever)",
         "extraction rewrites (complete list in the template): StdResult<T> -> Result<T, CertificateVerifierError>; Err(anyhow!(E)) -> Err(E); debug!(..) statements and .with_context(..) removed; async fn -> fn and .await removed; closure headers given types and ensures clauses; x.as_bytes() -> string_as_bytes(&x)",
-        "'reaches genesis in finitely many steps' follows from the per-link contract plus acyclicity (hash covers previous_hash under SHA-256): assumed, not proved; the default verify_certificate_chain loop (while let) is not under contract",
+        "'reaches genesis in finitely many steps' follows from the per-link contract plus acyclicity (hash covers previous_hash under SHA-256): assumed, not proved; the default verify_certificate_chain loop is verified for partial correctness only (Ok ==> the walk ended at a certificate that verify_certificate accepted as genesis; `while let` desugared to loop/break; termination explicitly not claimed: #[verifier::exec_allows_no_decreases_clause])",
         "the future_snark feature (off in default builds) is not covered; AggregateSignatureType::certifies_full_certificate_chain is false for the concatenation type",
     ],
     explanation="The acceptance rule is verified modularly by Verus on the function text extracted from the working tree: each guard against its clause of the statement, each composite against the conjunction of its callees' contracts, so a dropped or weakened conjunct fails a named obligation.",
